@@ -530,6 +530,74 @@ impl Item_@C@ {
 pub const @C@: Item_@C@ = Item_@C@;
 '''
 
+_KW_BLOCK = ('if', 'for', 'while', 'loop', 'match', 'unsafe')
+
+def _stmts_before(bm, off):
+    """top-level statements of the block enclosing `off`, as (start, end) offsets, up to `off`; None when the text
+    cannot be split with confidence"""
+    # enclosing block start
+    d = 0; j = off - 1
+    while j >= 0:
+        ch = bm[j]
+        if ch in ')]}': d += 1
+        elif ch in '([{':
+            if d == 0: break
+            d -= 1
+        j -= 1
+    if j < 0 or bm[j] != '{': return None
+    res = []; i = j + 1
+    while i < off:
+        while i < off and bm[i].isspace(): i += 1
+        if i >= off: break
+        st = i; d = 0
+        kw = re.match(r'(\w+)', bm[i:])
+        blocky = bool(kw and kw.group(1) in _KW_BLOCK) or bm[i] == '{'
+        while i < len(bm):
+            ch = bm[i]
+            if ch in '([{': d += 1
+            elif ch in ')]}':
+                d -= 1
+                if d < 0: return None
+                if d == 0 and ch == '}' and blocky:
+                    m = re.match(r'\s*else\b', bm[i + 1:])
+                    if not m:
+                        i += 1
+                        m2 = re.match(r'\s*;', bm[i:])     # `if .. {..};`
+                        if m2: i += m2.end()
+                        break
+            elif ch == ';' and d == 0:
+                i += 1; break
+            i += 1
+        res.append((st, i))
+    return res
+
+def float_up(body, bm, off, hint_lines):
+    """F1: a proof hint is placed as early as its text allows -- above preceding `let` statements that bind nothing the
+    hint mentions and can neither fail, return nor touch storage.  Keeps the guidance ahead of an expression that a
+    refactoring moves into a local of its own."""
+    st = _stmts_before(bm, off)
+    if not st: return off
+    # `off` must sit on a statement boundary
+    if bm[st[-1][1]:off].strip(): return off
+    idents = set(re.findall(r'[A-Za-z_]\w*', '\n'.join(hint_lines)))
+    k = len(st)
+    while k > 0:
+        a, b = st[k - 1]
+        t = bm[a:b]
+        if not re.match(r'let\b', t): break
+        if '?' in t or re.search(r'\breturn\b|&mut\b|\bdeps\b|\bstorage\b|\bunsafe\b', t): break
+        # binders: identifiers before the first top-level `=`
+        d = 0; eq = None
+        for x, ch in enumerate(t):
+            if ch in '([{<': d += 1
+            elif ch in ')]}>': d -= 1
+            elif ch == '=' and d <= 0 and t[x:x + 2] != '==': eq = x; break
+        if eq is None: break
+        binders = set(re.findall(r'[A-Za-z_]\w*', t[3:eq])) - {'mut', 'ref'}
+        if binders & idents: break
+        k -= 1
+    return st[k][0] if k < len(st) else off
+
 class Clause:
     def __init__(self, name, props, kind, fn):
         self.name, self.props, self.kind, self.fn = name, props, kind, fn
@@ -678,7 +746,7 @@ class Unit:
                     hm = re.match(r'hint\s+"((?:[^"\\]|\\.)*)"(.*)$', body)
                     if not hm: raise ExtractError('bad hint directive: ' + s)
                     o = hm.group(2).split()
-                    h = dict(anchor=hm.group(1).replace('\\"', '"'), nth=1, after=('after' in o), text=[])
+                    h = dict(anchor=hm.group(1).replace('\\"', '"'), nth=1, after=('after' in o), nofloat=('nofloat' in o), text=[])
                     for x in o:
                         if x.startswith('nth='): h['nth'] = int(x[4:])
                     spec['hints'].append(h); sect = h['text']; i += 1; continue
@@ -828,6 +896,9 @@ class Unit:
             else:
                 # exactly before the anchor text (anchors are chosen at statement starts)
                 off = pos
+                if not h.get('nofloat'):
+                    off2 = float_up(body, bm, off, h['text'])
+                    if off2 != off: cnt.hit('F1'); off = off2
             inserts.append((off, 'hint', h['text']))
         inserts.sort(key=lambda x: x[0])
         # emit
@@ -867,7 +938,9 @@ class Unit:
                 self.emit_tagged(payload[1], 'invariant', name)
             else:
                 self.flush_partial()
+                h0 = len(self.out) + 1
                 for hl in payload: self.out.append(hl)
+                fnrec.setdefault('hint_lines', []).append([h0, len(self.out)])     # proof-support text, not code and not specification
         self.emit_raw(body[pos:])
         self.flush_partial()
         fnrec['out_line1'] = len(self.out)
